@@ -448,8 +448,21 @@ func streamHelpers(seed uint64, n int, driver string) (*Summary, error) {
 				if g, err1 := sx.Parse(got); err1 == nil {
 					if w, err2 := sx.Parse(want); err2 == nil && len(g.List) == len(w.List) {
 						for k := range g.List {
+							missing := false // a declared test / transform that the object does not run (another one may run in its place)
+							if len(g.List[k].List) == 2 && len(w.List[k].List) == 2 {
+								ran := map[string]int{}
+								for _, x := range g.List[k].List[1].List {
+									ran[x.String()]++
+								}
+								for _, x := range w.List[k].List[1].List {
+									if ran[x.String()] == 0 {
+										missing = true
+									}
+									ran[x.String()]--
+								}
+							}
 							if len(g.List[k].List) == 2 && len(w.List[k].List) == 2 &&
-								(len(g.List[k].List[0].List) < len(w.List[k].List[0].List) || len(g.List[k].List[1].List) < len(w.List[k].List[1].List)) {
+								(missing || len(g.List[k].List[0].List) < len(w.List[k].List[0].List) || len(g.List[k].List[1].List) < len(w.List[k].List[1].List)) {
 								sum.addMismatch("C01", Mismatch{Case: lines[c], Impl: got, Model: want, What: fmt.Sprintf("schema object %d runs fewer field schemas / tests than it declares: a declared constraint is skipped because of an earlier builder call (%s)", k, what)})
 								break
 							}
